@@ -284,6 +284,9 @@ def manual_table(ext):
     }
 
 
+DISCARD_P1 = ('IMUInput', 'WheelSpeedInput', 'VehicleSpeedInput')
+
+
 def find_enum(name):
     import fusion_engine_client.messages as m
     from fusion_engine_client.messages import solution, measurements, ros, configuration, device, fault_control, signal_defs
@@ -467,6 +470,13 @@ def extract():
         layouts['InterfaceConfigType.' + configuration.InterfaceConfigType(t).name] = body
     for t, body in fcases:
         layouts['FaultType.' + fault_control.FaultType(t).name] = body
+    # unpack() of these declarative classes replaces details.p1_time by an invalid Timestamp after parsing
+    for cname in DISCARD_P1:
+        for it in layouts.get(cname, []):
+            if it['k'] == 'struct' and it['name'] == 'details':
+                last = it['items'][-1]
+                if last.get('name') == 'p1_time':
+                    last['codec'] = ('discard', (1 << 64) - 1)
     # class-specific attribute access
     if 'InputDataWrapperMessage' in layouts:
         for it in layouts['InputDataWrapperMessage']:
